@@ -16,7 +16,7 @@ FIDELITY_TESTS = ["tests"]
 BOUNDS = {
     "quick": {"nestings": "every nesting of && || ?: with <= 3 operand positions; ! on leaves (<= 2 positions), on one inner node and on the root",
               "operand outcomes": "true/false/error decided by symbolic data at every position simultaneously (3^k classes per program covered by path splitting), "
-                                  "error kinds: div-by-zero, list index, missing map key, undeclared name, no-overload, error raised inside a map() macro; non-boolean int operands",
+                                  "error kinds: div-by-zero, list index, missing map key, undeclared name, no-overload, error raised inside a map() macro, int(infinity) (OverflowError), int(bad text) and uint(negative) (ValueError); non-boolean int operands",
               "all/exists": "lists of length 0..3 with a symbolic element per position", "routes": "both runners + bare celtypes.logical_* functions"},
     "thorough": {"nestings": "<= 4 operand positions (every && || ?: shape; ! on leaves up to 3 positions, on inner nodes and root), 5 positions (5 sampled shapes)",
                  "all/exists": "lists of length 0..5", "routes": "same"},
@@ -37,7 +37,7 @@ MANIFEST = {
 # outcome classes
 T, F, E, N, U = 0, 1, 2, 3, 4  # true, false, error, non-bool value, unspecified by the statement
 
-LEAF_KINDS = ("div", "idx", "key", "bool", "int", "undecl", "noov", "map")
+LEAF_KINDS = ("div", "idx", "key", "bool", "int", "undecl", "noov", "map", "ovf", "conv", "uint")
 
 
 def leaf_src(kind, i):
@@ -50,6 +50,10 @@ def leaf_src(kind, i):
         "undecl": f"nope{i}",
         "noov": f"('a' < x{i})",
         "map": f"([x{i}].map(y, 1 / y)[0] == 1)",
+        # further Python exception classes behind the evaluation error: OverflowError, ValueError (text), ValueError (range)
+        "ovf": f"(int(1.0 / 0.0) == x{i})",
+        "conv": f"(int('1a') == x{i})",
+        "uint": f"(uint(x{i}) == 1u)",
     }[kind]
 
 
@@ -68,8 +72,10 @@ def leaf_spec(kind, i):
         return z3.If(x == 1, I(T), I(F)), I(0), [x >= 0, x <= 1]
     if kind == "int":
         return I(N), x, pre
-    if kind in ("undecl", "noov"):
+    if kind in ("undecl", "noov", "ovf", "conv"):
         return I(E), I(0), pre
+    if kind == "uint":
+        return z3.If(x == 1, I(T), z3.If(x < 0, I(E), I(F))), I(0), pre
     raise ValueError(kind)
 
 
@@ -168,6 +174,8 @@ def kind_assignments(k, tier):
     out.append(tuple(rot[(i + 1) % 4] for i in range(k)))      # idx key map div ...
     out.append(tuple(["int", "div", "bool", "noov", "key"][i % 5] for i in range(k)))
     out.append(tuple(["div", "int", "undecl", "idx", "int"][i % 5] for i in range(k)))
+    out.append(tuple(["ovf", "uint", "conv", "div", "ovf"][i % 5] for i in range(k)))
+    out.append(tuple(["bool", "ovf", "uint", "conv", "bool"][i % 5] for i in range(k)))
     if k <= 2 or tier == "thorough":
         out.append(tuple(["int"] * k))
         out.append(tuple(["map", "div", "map", "key", "idx"][i % 5] for i in range(k)))
